@@ -124,7 +124,8 @@ def run_property(prop: str, tier: str, repo: str = DEFAULT_REPO, overrides: Opti
         try:
             rd.fn(ctx)
             n = len(ctx.sites.get(rd.rid, []))
-            if n < rd.floor:
+            if n < rd.floor and not any(f.rule == rd.rid for f in ctx.findings):
+                # (a rule that already reports a violation is not passing vacuously)
                 raise AnalysisError(f"{prop}/{rd.rid}: matched {n} site(s), fewer than the confirmed floor {rd.floor} "
                                     f"-- the rule would pass vacuously")
         except AnalysisError as e:
